@@ -141,6 +141,7 @@ type h2World struct {
 	relayOf  map[string]string
 	onCid    func(idx int, key string, bound bool)
 	permDelay atomic.Int64 // nanoseconds every PermissionHandler call takes
+	authDelay atomic.Int64 // nanoseconds the AuthHandler takes for user bob
 }
 
 var h2Users = map[string]string{"alice": "pw-alice", "bob": "pw-bob"}
@@ -233,6 +234,9 @@ func newH2WorldWith(vt *vhT, cfg ServerConfig, lis []*h2Listener, withAuth bool,
 	cfg.Realm = w.realm
 	if withAuth {
 		cfg.AuthHandler = func(ra *RequestAttributes) (string, []byte, bool) {
+			if d := time.Duration(w.authDelay.Load()); d > 0 && ra.Username == "bob" {
+				time.Sleep(d) // an auth handler that takes its time for one user (a lookup in a remote user store, say)
+			}
 			pw, ok := h2Users[ra.Username]
 			if !ok {
 				return "", nil, false
